@@ -49,6 +49,9 @@ fn main() {
         "C02" => dispatch(&props::c02::P, &args),
         "C14" => dispatch(&props::c14::P, &args),
         "C03" => dispatch(&props::c03::P, &args),
+        "C06" => dispatch(&props::c06::P, &args),
+        "C07" => dispatch(&props::c07::P, &args),
+        "C08" => dispatch(&props::c08::P, &args),
         "C11" => dispatch(&props::c11::P, &args),
         "C15" => dispatch(&props::c15::P, &args),
         other => {
